@@ -18,7 +18,8 @@ CONSTANTS Ops,       \* set of operation names enumerated by this run
           Shard, NShards,   \* this run prints the cases with hash = Shard (mod NShards)
           AllRS,     \* TRUE: every receiver state for every operand tuple; FALSE: one, chosen by hash
           Wide,      \* TRUE: several view offsets / bandwidths per kind
-          Mism       \* TRUE: enumerate calls with mismatched operand shapes (a shape panic is demanded)
+          Mism,      \* TRUE: enumerate calls with mismatched operand shapes (a shape panic is demanded)
+          Refill     \* TRUE: the stage "receiver (re)filled by a special-case path" (RefillCasesOf below)
 
 N1 == 1 .. MaxN
 
@@ -266,7 +267,9 @@ Desc(op, args, n1, n2, rs, rr, rc, up) ==
     [op |-> op, args |-> args, n1 |-> n1, n2 |-> n2, rs |-> rs, rr |-> rr, rc |-> rc, up |-> up]
 
 InShard(args, extra) == ((HS(args) + extra) % NShards) = Shard
-RSFor(args, extra) == IF AllRS THEN {1, 2, 3} ELSE {1 + ((HS(args) \div NShards + extra + Seed) % 3)}
+\* (H2 of the first operand takes part: HS of a one-operand tuple is a multiple of 3, so inside one shard
+\* HS \div NShards alone is constant mod 3 and the receiver state would be a function of n1 and the seed only)
+RSFor(args, extra) == IF AllRS THEN {1, 2, 3} ELSE {1 + ((HS(args) \div NShards + H2(args[1][1]) + extra + Seed) % 3)}
 
 \* receiver shape: the result shape, or (for sized / view receivers) deliberately wrong shapes
 \* wrong = 1: one more row
@@ -467,7 +470,47 @@ NormalCasesOf(op) ==
             LET r(a) == 0  c(a) == 0  u(a) == TRUE IN
             With(op, UNION {{<<x>> : x \in Hd(MatReps(i, j))} : i \in N1, j \in N1}, 0 .. MaxN - 1, r, c, u)
 
-Cases == UNION {IF Mism THEN MismCasesOf(op) ELSE NormalCasesOf(op) : op \in Ops}
+(* Stage "refill".  Several methods fill the receiver through a path of their own instead of the general
+   kernel: Pow(a, 0) writes the identity, Pow(a, 1) copies, Pow(a, 2) is one Mul, Scale(0, a) and Scale(1, a)
+   are degenerate scalings, the Copy family writes a corner of the receiver, MulTri of two diagonal factors
+   zeroes the receiver and sets its diagonal, DiagFrom reads one diagonal.  Such a path is where a receiver
+   that is a VIEW (stride > columns, junk between its rows) or that holds old content is most easily
+   mistreated, and the sampled grid above meets each (parameter, receiver state) pair only for some seeds.
+   This stage is not sampled: every operation of the list x every parameter that selects a special path
+   x EVERY receiver state (it is run with AllRS) x a reduced set of operand representations x shapes. *)
+LiteKinds == {"Dense", "DenseView", "Basic", "Sym", "TriU", "TriL", "TriUView", "Band", "Diag", "DiagOfDense", "Tridiag",
+              "Vec", "VecInc", "RowOfDense", "BasicVec", "TriBandU"}
+LiteOf(S) == {x \in S : x[1].kind \in LiteKinds /\ x[1].tw \in {"N", "T", "TTri"}}
+RefillCasesOf(op) ==
+    LET r(a) == D1(a[1])  cc(a) == D2(a[1])  u(a) == TRUE  one(a) == 1  ut(a) == IsUpper(a[1])
+        Sq == UNION {{<<x>> : x \in LiteOf(Hd(MatReps(i, i)))} : i \in N1}
+        AnyM == UNION {{<<x>> : x \in LiteOf(Hd(MatReps(i, j)))} : i \in N1, j \in N1}
+        Vecs == UNION {{<<x>> : x \in LiteOf(Hd(VecReps(i)))} : i \in N1}
+        Syms == UNION {{<<x>> : x \in LiteOf(Hd(SymReps(i)))} : i \in N1}
+        Tris == UNION {{<<x>> : x \in LiteOf(Hd(TriReps(i)))} : i \in N1}
+        rcopy(a) == Max2(1, D1(a[1]) - 1 + (H2(a[1]) % 3))
+        ccopy(a) == Max2(1, D2(a[1]) - 1 + ((H2(a[1]) \div 3) % 3))
+        ucopy(a) == ((H2(a[1]) \div 9) % 2) = 0
+        rdiag(a) == Min2(D1(a[1]), D2(a[1]))
+    IN
+    CASE op = "Pow" -> With(op, Sq, 0 .. 3, r, cc, u)
+      [] op = "Scale" -> With(op, AnyM, {0, 1, 0 - 1}, r, cc, u)
+      [] op \in {"Apply", "CloneFrom"} -> With(op, AnyM, {0}, r, cc, u)
+      [] op = "Copy" -> With(op, AnyM, {0}, rcopy, ccopy, u)
+      [] op = "ScaleVec" -> With(op, Vecs, {0, 1, 0 - 1}, r, one, u)
+      [] op = "CloneFromVec" -> With(op, Vecs, {0}, r, one, u)
+      [] op = "CopyVec" -> With(op, Vecs, {0}, rcopy, one, u)
+      [] op = "ScaleSym" -> With(op, Syms, {0, 1, 0 - 1}, r, r, u)
+      [] op = "CopySym" -> With(op, Syms, {0}, rcopy, rcopy, u)
+      [] op = "ScaleTri" -> With(op, Tris, {0, 1, 0 - 1}, r, r, ut)
+      [] op = "CopyTri" -> With(op, AnyM, {0}, rcopy, rcopy, ucopy)
+      [] op = "MulTri" ->
+            With(op, UNION {{xy \in LiteOf(Hd(TriReps(i))) \X LiteOf(Hd(TriReps(i))) : IsUpper(xy[1][1]) = IsUpper(xy[2][1])} : i \in N1},
+                 {0}, r, r, ut)
+      [] op = "DiagFrom" -> With(op, AnyM, {0}, rdiag, rdiag, u)
+      [] OTHER -> {}
+
+Cases == UNION {IF Refill THEN RefillCasesOf(op) ELSE IF Mism THEN MismCasesOf(op) ELSE NormalCasesOf(op) : op \in Ops}
 
 (******************************* the printed case *******************************)
 \* data salt of operand position k.  Equal with n1 = 1 compares two operands holding the SAME formula
